@@ -9,6 +9,7 @@ static void vec_weights(int prop, uint32_t *w) {
   static const uint32_t base[kVecNumOps] = {4, 4, 4, 3, 2, 4, 3, 4, 5, 2, 3, 4, 4, 1, 2, 2, 3, 3, 2, 3, 1, 1, 3, 4, 2,
                                             2, 2, 2, 1, 2, 1, 1, 1, 1, 4, 3, 1, 1, 1, 1, 1, 1, 1, 1, 1, 1, 1, 0, 1, 1};
   for (int i = 0; i < kVecNumOps; ++i) w[i] = base[i];
+  if (prop == 1 || prop == 2) w[49] = 3;
   switch (prop) {
     case 5: w[22] = 8; w[23] = 10; w[24] = 6; w[25] = 4; w[26] = 6; w[34] = 8; w[17] = 5; w[44] = 0; w[48] = 0; break;
     case 9: w[49] = 12; break;
